@@ -230,8 +230,8 @@ pub const SUBS: &[Sub] = &[
 
 pub fn run(ctx: &Ctx) {
     run_regress(ctx, SUBS);
-    drive_enum(ctx, &SUBS[0], ctx.n(1500, 60_000));
-    drive_random(ctx, &SUBS[1], ctx.n(20_000, 1_000_000), 1600);
+    drive_enum(ctx, &SUBS[0], ctx.n(1500, 600_000));
+    drive_random(ctx, &SUBS[1], ctx.n(20_000, 10_000_000), 1600);
 }
 
 pub fn finish(ctx: &Ctx) -> i32 {
